@@ -335,7 +335,10 @@ func cmdCheck(args []string) int {
 				if isAbstractTarget(label) {
 					continue
 				}
-				genErrs = append(genErrs, "contract names unknown function "+label)
+				// a function under contract is gone: the contract file is out of date. As for every
+				// other binding failure the property's replay witnesses decide (a witness that fails
+				// on the code is a violation; otherwise the check is UNDECIDED)
+				stale["<declarations>"] = append(stale["<declarations>"], "contract names unknown function "+label)
 				continue
 			}
 			g := newGen(c, fn, fc)
